@@ -105,7 +105,7 @@ def bstep (m : BMon) (ts : List String) : BMon × String :=
     let settled := out.contains "settled"
     let k := k.toNat?.getD 0
     let faultHits := k ≥ 1 && k ≤ m.size
-    let memHits := k ≥ 1 && k < m.size
+    let memHits := k < m.size
     match calls with
     | none => (m, "reject bad-output missing calls")
     | some calls =>
@@ -115,8 +115,9 @@ def bstep (m : BMon) (ts : List String) : BMon × String :=
       match callsOk m.parents calls with
       | .reject c d => (m, s!"reject {c} {d}")
       | .ok =>
-        let expectErr := (f == "err" && faultHits) || (f == "mem" && memHits)
-        let expectAll := f == "none" || (f != "cancel" && !expectErr && !(f == "swallow" && faultHits))
+        let hits := if f == "mem" then memHits else (f != "none" && faultHits)
+        let expectErr := hits && (f == "err" || f == "mem")
+        let expectAll := !hits
         if expectErr && ret != "err" && ret != "memlimit" then (m, s!"reject error-lost driver failed but BreadthFirst returned {ret}")
         else if !expectErr && ret != "ok" then (m, s!"reject spurious-error BreadthFirst returned {ret}")
         else if expectAll then (m, verdictStr (callsComplete m.parents calls))
